@@ -336,7 +336,18 @@ class Ctx:
         self.rule = ""
         self.exhaustive = None
         self.runs = []
-        self.work = os.path.join(BUILD, "run", pid + "_" + tier)
+        # one work dir per process: concurrent runs of the same check (seed tests, replays, builders) must not
+        # delete each other's files; leftovers of runs that died are swept when they are older than six hours
+        rundir = os.path.join(BUILD, "run")
+        os.makedirs(rundir, exist_ok=True)
+        try:
+            for d in os.listdir(rundir):
+                dp = os.path.join(rundir, d)
+                if time.time() - os.path.getmtime(dp) > 6 * 3600:
+                    shutil.rmtree(dp, ignore_errors=True)
+        except OSError:
+            pass
+        self.work = os.path.join(rundir, "%s_%s_%d" % (pid, tier, os.getpid()))
         shutil.rmtree(self.work, ignore_errors=True)
         os.makedirs(self.work, exist_ok=True)
         os.makedirs(EVID, exist_ok=True)
